@@ -426,9 +426,10 @@ def case_auth(seed, out, spec):
     cfg = {'SERVICE_URL': '127.0.0.1:1', 'SERVICE_SECURE': 'False'}
     if mode in ('basic', 'basic_nopass'):
         cfg['SERVICE_AUTH_PROVIDER'] = 'deep.api.auth.BasicAuthProvider'
-        cfg['SERVICE_USERNAME'] = r.pick(['bob', 'ünï', 'a:b', 'user@example.com'])
+        idx = int(str(seed).split(':')[-1])
+        cfg['SERVICE_USERNAME'] = ['bob', 'ünï', 'a:b', 'user@example.com', ''][idx % 5]
         if mode == 'basic':
-            cfg['SERVICE_PASSWORD'] = r.pick(['pw', 'p w', 'päss', ''])
+            cfg['SERVICE_PASSWORD'] = ['pw', '', 'p w', 'päss'][(idx // 5) % 4]
     elif mode == 'custom':
         cfg['SERVICE_AUTH_PROVIDER'] = 'vf.props.c08.VfProvider'
         cfg['MY_TENANT'] = r.randrange(1000)
